@@ -124,6 +124,7 @@ func runDup(c *core.Ctx) []core.Obligation {
 	p := &purity{c: c, memo: map[*ssa.Function]int{}, allowReads: true}
 	chains, ifs, clamps, calls := 0, 0, 0, 0
 	zeroVars, deadStores := 0, 0
+	runs := 0
 	for _, pkg := range c.Pkgs {
 		info := pkg.TypesInfo
 		for _, file := range pkg.Syntax {
@@ -222,6 +223,28 @@ func runDup(c *core.Ctx) []core.Obligation {
 							}
 						}
 					case *ast.BlockStmt:
+						// (g) a running maximum / minimum written by hand: M = A; if B > A { M = B }; if C > A { M = C } - the
+						// third statement compares with the value M started from although M may have been replaced since
+						for i := 0; i+2 < len(x.List); i++ {
+							m, a, ok := simpleAssign(x.List[i])
+							if !ok {
+								continue
+							}
+							replaced := false
+							for k := i + 1; k < len(x.List); k++ {
+								cand, bound, tgt, isRun := runningStep(x.List[k])
+								if !isRun || tgt != m {
+									break
+								}
+								runs++
+								if bound == a && replaced && cand != a {
+									report(x.List[k].Pos(), fmt.Sprintf("`%s` is a running extreme that starts at `%s` and has already been replaced by an earlier statement, but this step still compares `%s` with `%s` instead of with `%s`: when the earlier candidate is the larger (smaller) one it is overwritten by a candidate that only beats the starting value", m, a, cand, a, m))
+								}
+								if bound == a || bound == m {
+									replaced = true
+								}
+							}
+						}
 						// (d) two consecutive assignments with the same side-effect-free call on the right: the second repeats
 						// the first instead of handling the sibling argument it was copied for
 						for i := 0; i+1 < len(x.List); i++ {
@@ -262,7 +285,7 @@ func runDup(c *core.Ctx) []core.Obligation {
 			}
 		}
 	}
-	obs = append(obs, core.Ob("R-DUP", "scan", "-", "", core.Discharged, fmt.Sprintf("%d &&/|| chains, %d pairs of consecutive if statements %d clamp statements, %d pairs of consecutive call assignments, %d value-less local declarations and %d multi-value call assignments examined across the library; no duplicated test, no clamp to a value other than the tested bound, no repeated call, no never-assigned local that is read, no named result that is never used", chains, ifs, clamps, calls, zeroVars, deadStores)))
+	obs = append(obs, core.Ob("R-DUP", "scan", "-", "", core.Discharged, fmt.Sprintf("%d &&/|| chains, %d pairs of consecutive if statements %d clamp statements, %d pairs of consecutive call assignments, %d value-less local declarations and %d multi-value call assignments examined across the library; no duplicated test, no clamp to a value other than the tested bound, no repeated call, no never-assigned local that is read, no named result that is never used; %d hand-written running-extreme steps, none comparing with a stale value", chains, ifs, clamps, calls, zeroVars, deadStores, runs)))
 	return obs
 }
 
@@ -436,4 +459,44 @@ func deadTupleStores(fn *ssa.Function, fd *ast.FuncDecl) dupScan {
 		}
 	}
 	return res
+}
+
+
+// simpleAssign: `m := a` or `m = a` with identifiers on both sides.
+func simpleAssign(st ast.Stmt) (m, a string, ok bool) {
+	as, isAs := st.(*ast.AssignStmt)
+	if !isAs || len(as.Lhs) != 1 || len(as.Rhs) != 1 || (as.Tok != token.ASSIGN && as.Tok != token.DEFINE) {
+		return "", "", false
+	}
+	l, ok1 := as.Lhs[0].(*ast.Ident)
+	r, ok2 := as.Rhs[0].(*ast.Ident)
+	if !ok1 || !ok2 || l.Name == "_" {
+		return "", "", false
+	}
+	return l.Name, r.Name, true
+}
+
+// runningStep: `if cand > bound { tgt = cand }` (or <, >=, <=, operands either way round) with identifiers only.
+func runningStep(st ast.Stmt) (cand, bound, tgt string, ok bool) {
+	ifs, isIf := st.(*ast.IfStmt)
+	if !isIf || ifs.Init != nil || ifs.Else != nil || len(ifs.Body.List) != 1 {
+		return
+	}
+	cmp, isCmp := ifs.Cond.(*ast.BinaryExpr)
+	if !isCmp || (cmp.Op != token.LSS && cmp.Op != token.GTR && cmp.Op != token.LEQ && cmp.Op != token.GEQ) {
+		return
+	}
+	x, ok1 := ast.Unparen(cmp.X).(*ast.Ident)
+	y, ok2 := ast.Unparen(cmp.Y).(*ast.Ident)
+	t, v, ok3 := simpleAssign(ifs.Body.List[0])
+	if !ok1 || !ok2 || !ok3 {
+		return
+	}
+	switch v {
+	case x.Name:
+		return x.Name, y.Name, t, true
+	case y.Name:
+		return y.Name, x.Name, t, true
+	}
+	return
 }
